@@ -304,6 +304,8 @@ fn next_case(ctx: &mut Ctx, rng: &mut Rng, fmt: Fmt) -> Case {
                         Some(c) => c,
                         None => continue,
                     }
+                } else if r < 94 {
+                    gen::g1x(rng, fmt)
                 } else {
                     gen::g9(rng, fmt)
                 }
@@ -332,6 +334,8 @@ fn next_case(ctx: &mut Ctx, rng: &mut Rng, fmt: Fmt) -> Case {
                         }
                         None => continue,
                     }
+                } else if r < 93 {
+                    gen::g1x(rng, fmt)
                 } else {
                     gen::g1(rng, fmt)
                 }
@@ -350,6 +354,8 @@ fn next_case(ctx: &mut Ctx, rng: &mut Rng, fmt: Fmt) -> Case {
                         Some(c) => c,
                         None => continue,
                     }
+                } else if r < 89 {
+                    gen::g1x(rng, fmt)
                 } else {
                     gen::g9(rng, fmt)
                 }
@@ -625,6 +631,10 @@ fn mode_oracle(ctx: &mut Ctx, args: &Args, rng: &mut Rng, shard: (u64, u64)) {
         // Eisel-Lemire's lo == MAX bail-out: reached only through the constructed corpus entries (2^-64 otherwise)
         ctx.rep.require("path.lemire_lo_max_fallback");
     }
+    if ctx.prop == "C01" || ctx.prop == "C02" || ctx.prop == "C07" {
+        ctx.rep.require("tag.PSEUDO_MIDPOINT_ABOVE_RANGE");
+        ctx.rep.require("tag.PSEUDO_MIDPOINT_BELOW_RANGE");
+    }
     if ctx.prop == "C07" {
         for k in ["class.inf", "class.zero", "class.subnormal", "tag.ZERO", "tag.COMP_INT", "tag.COMP_FRAC", "tag.EXTREME_EXP", "tag.CFHARD_RANGE_END"] {
             ctx.rep.require(k);
@@ -755,9 +765,10 @@ fn nopanic_random(ctx: &mut Ctx, rng: &mut Rng, until: std::time::Instant) {
         }
         i += 1;
         let fmt = if i % 2 == 0 { F64 } else { F32 };
-        let c = match rng.below(10) {
+        let c = match rng.below(11) {
             0 | 1 | 2 => capacity_case(rng, fmt),
             3 | 4 => gen::g3(rng, fmt),
+            10 => gen::g1x(rng, fmt),
             5 | 6 => gen::g1(rng, fmt),
             7 => gen::g_seam(rng, fmt),
             8 => gen::g5(rng, fmt),
